@@ -5,9 +5,13 @@ cd "$(dirname "$0")"
 ROOT=$(pwd)
 cd "$ROOT/coq"
 # generated tables must exist before coq_makefile lists them
-# a translator failure must not take the other properties down: it is recorded and reported by the check of C20
+# a translator failure must not take the other properties down: it is recorded and reported by the checks of the properties that depend on the failed table
 if [ -x "$ROOT/harness/gen_tables.sh" ]; then
-  if "$ROOT/harness/gen_tables.sh" 2> gen/STATUS.err; then echo ok > gen/STATUS; else echo failed > gen/STATUS; fi
+  # gen_tables.py writes gen/STATUS itself: one line `<generator> ok|failed: reason` per generated file (cli, const, dissim)
+  rm -f gen/STATUS
+  "$ROOT/harness/gen_tables.sh" 2> gen/STATUS.err || [ -s gen/STATUS ] || echo "cli failed: translator did not run
+const failed: translator did not run
+dissim failed: translator did not run" > gen/STATUS
 fi
 # property files (props/) are NOT part of this build: each check recompiles its own property file, so that a proof obligation broken by a
 # change of /repo (e.g. props/C20.v over the regenerated table) only affects that property
@@ -19,7 +23,7 @@ timeout 3000 make -j16 2>&1 | grep -v '^COQDEP\|^COQC\|^make\[' || true
 timeout 3000 make -j16 > /dev/null
 # no escape hatches anywhere in the development
 if grep -rnE '\b(Admitted|admit|Axiom|Parameter|Conjecture|Admit Obligations)\b|Unset Guard|bypass_check|type-in-type|impredicative-set' \
-     --include='*.v' theories gen props Extract.v | grep -v '^[^:]*:[0-9]*: *(\*' ; then
+     --include='*.v' theories gen genprops props Extract.v | grep -v '^[^:]*:[0-9]*: *(\*' ; then
   echo "BUILD ERROR: forbidden vernacular found" >&2; exit 3
 fi
 mkdir -p extracted
